@@ -393,13 +393,35 @@ package keeper
 //@   ensures #c01-stable-vaults-untouched: forall id :: k.GetStableMintVault(ctx, id) == old(k.GetStableMintVault(ctx, id))
 //@   ensures #c01-totals-untouched: forall a, e :: k.GetAppExtendedPairVaultMappingData(ctx, a, e) == old(k.GetAppExtendedPairVaultMappingData(ctx, a, e))
 
+
+// ---- MsgDepositAndDraw (deposit, then draw the amount computed from the deposit): the position still satisfies the
+// product's minimum ratio afterwards, the collateral paid in is held in custody and recorded ----
+
 //@ func (k msgServer) MsgDepositAndDraw
-//@   property C12, C14
+//@   property C01, C03, C12, C14
 //@   let v0 = k.GetVault(ctx, msg.UserVaultId).0
+//@   let ep = k.asset.GetPairsVault(ctx, msg.ExtendedPairVaultId).0
+//@   let pair = k.asset.GetPair(ctx, ep.PairId).0
+//@   let din = k.asset.GetAsset(ctx, pair.AssetIn).0.Denom
+//@   let dout = k.asset.GetAsset(ctx, pair.AssetOut).0.Denom
+//@   let vm = modaddr("vaultV1")
+//@   let cm = modaddr("collectorV1")
+//@   let user = addr(msg.From)
 //@   let vf0 = k.GetVault(ctx, msg.UserVaultId).1
+//@   requires #validated: msg.ValidateBasic() == nil
+//@   requires #vault-keyed: k.GetVault(ctx, msg.UserVaultId).1 ==> v0.Id == msg.UserVaultId
+//@   requires #map-keyed: k.GetAppExtendedPairVaultMappingData(ctx, msg.AppId, msg.ExtendedPairVaultId).1 ==> k.GetAppExtendedPairVaultMappingData(ctx, msg.AppId, msg.ExtendedPairVaultId).0.AppId == msg.AppId && k.GetAppExtendedPairVaultMappingData(ctx, msg.AppId, msg.ExtendedPairVaultId).0.ExtendedPairId == msg.ExtendedPairVaultId
+//@   requires #map-exists: k.GetVault(ctx, msg.UserVaultId).1 ==> k.GetAppExtendedPairVaultMappingData(ctx, v0.AppId, v0.ExtendedPairVaultID).1
+//@   requires #distinct-accounts: user != vm && user != cm && vm != cm && din != dout
+//@   requires #fee-rate: ep.DrawDownFee >= 0 && ep.DrawDownFee <= ONE
+//@   requires #asset-keyed: (k.asset.GetAsset(ctx, pair.AssetIn).1 ==> k.asset.GetAsset(ctx, pair.AssetIn).0.Id == pair.AssetIn) && (k.asset.GetAsset(ctx, pair.AssetOut).1 ==> k.asset.GetAsset(ctx, pair.AssetOut).0.Id == pair.AssetOut)
 //@   requires #app-keyed: k.asset.GetApp(ctx, msg.AppId).1 ==> k.asset.GetApp(ctx, msg.AppId).0.Id == msg.AppId
 //@   requires #pairsvault-keyed: k.asset.GetPairsVault(ctx, msg.ExtendedPairVaultId).1 ==> k.asset.GetPairsVault(ctx, msg.ExtendedPairVaultId).0.Id == msg.ExtendedPairVaultId
 //@   requires #nonneg-book: forall a, b :: K("collector").GetNetFeeCollectedData(ctx, a, b).1 ==> K("collector").GetNetFeeCollectedData(ctx, a, b).0.NetFeesCollected >= 0
+//@   letpost v1 = k.GetVault(ctx, msg.UserVaultId).0
+//@   ensures [C03] slow #c03-cr-defined: ok ==> crOf(k, ctx, msg.ExtendedPairVaultId, v1).1 == nil
+//@   ensures [C03] slow #c03-min-cr: ok ==> crOf(k, ctx, msg.ExtendedPairVaultId, v1).0 >= ep.MinCr
+//@   ensures [C01] #c01-collateral-in-custody: ok ==> bal(vm, din) == old(bal(vm, din)) + msg.Amount && v1.AmountIn == v0.AmountIn + msg.Amount
 //@   ensures [C12] #c12-owner: ok ==> vf0 && msg.From == v0.Owner
 //@   ensures [C12] #c12-own-app: ok ==> v0.AppId == msg.AppId && v0.ExtendedPairVaultID == msg.ExtendedPairVaultId
 //@   fails_if [C14] #c14-breaker: k.esm.GetKillSwitchData(ctx, msg.AppId).0.BreakerEnable
